@@ -988,3 +988,77 @@ Theorem C01_fragments_well_scoped :
     (C01SimDefs8.in_f8 M = true -> well_scoped M = true).
 Proof. exact C01SimScope8.fragments_well_scoped8. Qed.
 Print Assumptions C01_fragments_well_scoped.
+
+(* ==== fragment F9: several functions, static calls with parameters, Return (PARTIAL: no end-to-end theorem yet) ====
+   (C01SimDefs9.in_f9.)  A module  main :: f1 :: ... :: fk  without submodules and imports, main first and without
+   parameters, the function names pairwise distinct, the parameters of a function pairwise distinct.  Pure expressions e
+   are those of F1 over parameters, locals and globals; a right-hand side r is  e  or  Call f [e1; ...; en]  where f is
+   declared LATER in the module than the running function (the call graph is acyclic: no recursion) and n is the number
+   of parameters of f; statements are  SetGlobalVar g r | SetVar x r | Return r (not in main) | IfTrue e s | IfFalse e s |
+   IfElse e s s;  a SetVar of a new name directly in a function body declares a local.  Arguments are evaluated left to
+   right and the FIRST argument is bound to the LAST declared parameter; a body that ends without Return yields nil.
+   What is proved for all programs of the fragment (three of the four parts of compile_correct for it):
+     - C01_f9_compile_shape: the compiler half - compile M = COk B implies that the bytecode of B begins with the
+       encoding of C01SimDefs9.code_all9 (main, then f1 .. fk; a call = the arguments, FunctionPointer (handle of the
+       callee's position, its arity), CallFunction; a function body ends with one Pop per local - parameters included -,
+       ScalarNil, Return; a Return card = the value, Return) and that the label of function i is the address of its first
+       instruction (labels_ok9), with the facts about the table of global ids the earlier fragments use;
+     - C01_f9_reference_meaning: the reference half - eval_program fuel M host = PObs o implies that o is what the direct,
+       fuel-free meaning C01SimDefs9.run_main9 computes (sem9: the meaning of the calls to the later functions, by recursion
+       on the list of functions): outcome kind Ok or VarNotFound, the globals;
+     - C01_f9_well_scoped: the fragment lies inside RefScope.well_scoped.
+   Proved on the VM side (Cao.C01SimVm9, not property theorems): the vocabulary of the simulation with call frames and heap
+   as part of the configuration (steps9, loop_steps9), ReadLocalVar / SetLocalVar relative to a frame offset, and the call
+   protocol - FunctionPointer; CallFunction enters labels[h] in a frame whose offset is the position of the first argument
+   (ex9_call), Return replaces the callee's part of the stack, arguments included, by the returned value and continues
+   behind the call (ex9_return).
+   STILL OPEN for F9: the simulation of code_all9 on the VM by induction over run_main9 (expressions, statements, bodies,
+   functions from the last to the first) and with it C01_compile_correct_f9; recursion; calls in statement position (their
+   value stays on the stack as junk); While / Repeat inside functions.  The instance below runs all three sides. *)
+From Cao Require C01SimDefs9 CompilerLabels.
+
+(* an instance: sub2(a, b) is called with (10, x = 7): the first argument is bound to the LAST parameter b, so d = a - b = -3;
+   sub2 calls clamp, which returns early for a negative argument; noret ends without Return and yields nil *)
+Definition f9_example : module :=
+  prog [("main", fn [] [CSetVar (s "x") (CScalarInt 7);
+                        CSetGlobalVar (s "r") (CCall (s "sub2") [CScalarInt 10; CReadVar (s "x")]);
+                        CSetVar (s "y") (CCall (s "clamp") [CReadVar (s "r")]);
+                        CSetGlobalVar (s "q") (CBin BAdd (CReadVar (s "y")) (CReadVar (s "x")));
+                        CSetGlobalVar (s "z") (CCall (s "clamp") [CScalarInt 5]);
+                        CSetGlobalVar (s "w") (CCall (s "noret") [])]);
+        ("sub2", fn ["a"; "b"] [CSetVar (s "d") (CBin BSub (CReadVar (s "a")) (CReadVar (s "b")));
+                                CSetGlobalVar (s "seen") (CCall (s "clamp") [CReadVar (s "d")]);
+                                CUn UReturn (CReadVar (s "d"))]);
+        ("clamp", fn ["v"] [CBin BIfTrue (CBin BLess (CReadVar (s "v")) (CScalarInt 0)) (CUn UReturn (CScalarInt 0));
+                            CSetGlobalVar (s "clamped") (CReadVar (s "v"));
+                            CUn UReturn (CReadVar (s "v"))]);
+        ("noret", fn [] [CSetGlobalVar (s "n") (CScalarInt 1)])].
+Example C01_f9_instance :
+  match Compiler.compile f9_example CompilerProofs.default_options, eval_program 500 f9_example [] with
+  | Compiler.COk B, PObs o =>
+      C01SimDefs9.in_f9 f9_example = true /\ C01SimDefs9.depth_ok9 f9_example = true /\
+      CompilerLabels.label_keys_distinct_module f9_example 64 = true /\
+      (N.of_nat (List.length (Compiler.p_ids B)) <? Bits.two32)%N = true /\
+      (* the compiler half: the code and the labels *)
+      (let code := Bytecode.encode (C01SimDefs9.code_all9 (Compiler.p_ids B) f9_example) in
+       firstn (List.length code) (Compiler.p_bytecode B) = code) /\
+      C01SimDefs9.bases_all9 (Compiler.p_ids B) f9_example = [121; 168; 217]%N /\
+      map (fun i => Compiler.nm_find (Bits.handle_from_u64 i) (Compiler.p_labels B)) [1; 2; 3]%N
+        = [Some 121; Some 168; Some 217]%N /\
+      (* the reference half: the direct meaning *)
+      C01SimDefs9.run_main9 f9_example =
+        (true, [(s "seen", RefSem.VInt 0); (s "r", RefSem.VInt (-3)); (s "q", RefSem.VInt 7); (s "clamped", RefSem.VInt 5);
+                (s "z", RefSem.VInt 5); (s "n", RefSem.VInt 1); (s "w", RefSem.VNil)]) /\
+      (ob_kind o, ob_globals o) =
+        (KOk, [(s "seen", TrInt 0); (s "r", TrInt (-3)); (s "q", TrInt 7); (s "clamped", TrInt 5); (s "z", TrInt 5);
+               (s "n", TrInt 1); (s "w", TrNil)]) /\
+      (* the VM on the compiled program *)
+      let r := Vm.run no_floats Vm.Debug 500 (C15Link.to_vm B) Vm.fresh_state in
+      C01SimDefs.vm_kind (fst r) = Some (ob_kind o) /\
+      Stacks.vcount (Vm.st_stack (snd r)) = 0 /\
+      map (fun n => option_map C01SimDefs.vm_tree (Vm.read_var_by_name (C15Link.to_vm B) (snd r) n))
+          [s "r"; s "q"; s "z"; s "w"; s "seen"; s "clamped"; s "n"; s "x"; s "d"]
+      = map (fun n => assoc n (ob_globals o)) [s "r"; s "q"; s "z"; s "w"; s "seen"; s "clamped"; s "n"; s "x"; s "d"]
+  | _, _ => False
+  end.
+Proof. vm_compute. repeat split; reflexivity. Qed.
